@@ -53,16 +53,14 @@ class Addr:
         self.name = name                # "www.example.com"
         self.ip = maybe_ip_addr(ip)     # IPV4Address instance, or string
 
+        # whatever we had scheduled belongs to the previous mapping
+        self._cancel_expiry()
+
         if self.ip == '<error>':
             self._expire()
             return
 
         fmt = "%Y-%m-%d %H:%M:%S"
-
-        # if we already have expiry times, etc then we want to
-        # properly delay our timeout
-
-        oldexpires = self.expires
 
         if gmtexpires.upper() == 'NEVER':
             # FIXME can I just select a date 100 years in the future instead?
@@ -72,24 +70,28 @@ class Addr:
         self.created = datetime.datetime.utcnow()
 
         if self.expires is not None:
-            if oldexpires is None:
-                if self.expires <= self.created:
-                    diff = datetime.timedelta(seconds=0)
-                else:
-                    diff = self.expires - self.created
-                self.expiry = self.map.scheduler.callLater(diff.seconds,
-                                                           self._expire)
-
+            if self.expires <= self.created:
+                seconds = 0
             else:
-                diff = self.expires - oldexpires
-                self.expiry.delay(diff.seconds)
+                seconds = (self.expires - self.created).total_seconds()
+            self.expiry = self.map.scheduler.callLater(seconds, self._expire)
+
+    def _cancel_expiry(self):
+        if self.expiry is not None and self.expiry.active():
+            self.expiry.cancel()
+        self.expiry = None
 
     def _expire(self):
         """
         callback done via callLater
         """
-        del self.map.addr[self.name]
-        self.map.notify("addrmap_expired", *[self.name], **{})
+        self.expiry = None
+        was_known = False
+        for key in [k for (k, v) in self.map.addr.items() if v is self]:
+            del self.map.addr[key]
+            was_known = True
+        if was_known:
+            self.map.notify("addrmap_expired", *[self.name], **{})
 
 
 class AddrMap(object):
@@ -115,9 +117,16 @@ class AddrMap(object):
 
         params = shlex.split(update)
         if params[0] in self.addr:
-            self.addr[params[0]].update(*params)
+            a = self.addr[params[0]]
+            # the address may have changed; index only the current one
+            for key in [k for (k, v) in self.addr.items()
+                        if v is a and k != params[0]]:
+                del self.addr[key]
+            if params[1] != '<error>':
+                self.addr[params[1]] = a
+            a.update(*params)
 
-        else:
+        elif params[1] != '<error>':
             a = Addr(self)
             # add both name and IP address
             self.addr[params[0]] = a
